@@ -5,6 +5,8 @@ library call (create / map / mutate / crossover), exhaustively over the unit's b
 """
 from __future__ import annotations
 
+import hashlib
+import json
 import itertools
 import sys
 from dataclasses import dataclass, field
@@ -75,7 +77,24 @@ def patch_stack_horizon(limit: int = 400):
 def open_ctx(unit) -> Ctx:
     patch_stack_horizon()
     spec = unit["spec"]
-    b = G.build_named(spec) if spec.get("named") else G.build(spec)
+    if unit.get("redeclare"):
+        # the grammar is declared, extracted and used once (one creation with default answers), dropped, and then
+        # declared again under the same module and class names: nothing remembered about the first declaration
+        # (per-name / per-module caches) may leak into the second
+        from mc.explorer import ExhaustiveSource as _ES0
+
+        modname = "verif_redeclared_" + hashlib.sha1(json.dumps(spec, sort_keys=True, default=str).encode()).hexdigest()[:10]
+        b0 = G.build(spec, modname=modname)
+        try:
+            g0 = b0.extract(bool(unit.get("xd", False)))
+            make_rep("tree", g0, _ES0(()), g0.get_min_tree_depth() + 1).create_genotype(_ES0(()))
+        except Exception:  # noqa
+            pass
+        b0.cleanup()
+        del b0
+        b = G.build(spec, modname=modname)
+    else:
+        b = G.build_named(spec) if spec.get("named") else G.build(spec)
     try:
         g = b.extract(bool(unit.get("xd", False)))
         exc = None
